@@ -19,7 +19,7 @@ func init() {
 		Explain: "Decides by effect analysis over the call graph (all built-in extensions included): (S) no store into configuration/global memory is reachable from Convert/Parse/Render outside the sync.Once initialisers, so no state can survive a call; (R) nothing reachable from Render writes AST node memory except nil-guarded memoisation of a value computed from the node itself; (N) no nondeterminism source (map iteration, time, rand, goroutines, select) is reachable per call; (E) Convert is exactly reader := NewReader(source); Parse; Render with the same source. Does NOT decide byte equality across equivalent option spellings, user-supplied extensions, or a caller-supplied Context/IDs object.",
 		Trusted: []string{"type-directed memory classes (DESIGN 2.3)", "VTA call graph with pass-site refinement (DESIGN 2.2)", "no unsafe writes (C12-X)"},
 		Assumes: []string{"user-supplied extensions, parsers, renderers and Context objects are out of scope"},
-		Rules:   []func(*World, *Report){ruleNoSharedState("C06-S"), ruleStatelessSharedObjects, ruleRenderReadOnly, ruleNoNondeterminism, ruleOptionsCommute, ruleConvertShape},
+		Rules:   []func(*World, *Report){ruleNoSharedState("C06-S"), ruleStatelessSharedObjects, ruleRenderReadOnly, ruleNoNondeterminism, ruleOptionsCommute, ruleConvertShape, ruleConvertWrappersPassThrough, ruleConfiguredComponentsOwned},
 	})
 	register(&Property{
 		ID:      "C07",
@@ -27,7 +27,7 @@ func init() {
 		Explain: "A data race needs two goroutines, one location and at least one write. Locations two concurrent calls on one instance can both reach are (a) the configuration graph and globals, (b) the caller's source buffer, (c) what a call allocates and publishes. S: no write to (a) outside a Once-closure, hence (c) is empty; O: every write to (a) reachable from an entry point is inside the closure handed to sync.Once.Do on a Once that is a field of the initialised object (or a global), and the Do call dominates every read of the fields the closure writes; I: the global registries (node kinds, context keys, case-folding table) are written only from package initialisation; B (= C12): the source buffer is never written; T: every foreign method call on a receiver loaded from shared memory has a concurrency-safe receiver type. With these, every write performed by a call goes to memory no other call can reach: no race, and no call observes another call's writes.",
 		Trusted: []string{"Go memory model for sync.Once", "table of concurrency-safe stdlib receiver types (regexp.Regexp, sync.Once, unicode.RangeTable)", "VTA call graph with pass-site refinement (DESIGN 2.2)", "type-directed memory classes (DESIGN 2.3)", "C12 (source buffer never written; no unsafe writes)"},
 		Assumes: []string{"user-supplied extensions out of scope", "the same AST is not rendered concurrently with itself (node memoisation is per tree)"},
-		Rules:   []func(*World, *Report){ruleNoSharedState("C07-S"), ruleOnceDiscipline, ruleInitOnlyRegistries, ruleThreadSafeObjects, ruleSourceNeverWrittenSummary},
+		Rules:   []func(*World, *Report){ruleNoSharedState("C07-S"), ruleOnceDiscipline, ruleInitOnlyRegistries, ruleThreadSafeObjects, ruleSourceNeverWrittenSummary, ruleConfiguredComponentsOwned},
 	})
 }
 
